@@ -792,6 +792,8 @@ def call_builtin(self, st, name, args, kwargs, node):
         return [(st, "val", None)]
     if name == "isinstance":
         return [(st, "val", x_isinstance(self, st, args[0], args[1], node))]
+    if name == "vars" and len(args) == 1 and not kwargs and isinstance(args[0], Ref) and st.obj(args[0]).kind in (None, "obj"):
+        return self.get_attr(st, args[0], "__dict__", node)         # vars(obj) is obj.__dict__
     if name == "getattr":
         if not isinstance(args[1], str):
             return [(st, "val", Top("getattr(?)", False))]
